@@ -1,5 +1,6 @@
 import TemplVerif.Model.Buf
 import TemplVerif.Proofs.Buf
+import TemplVerif.Proofs.Prefix
 /-
 C10 — rendering is exact and fail-stop under writer, expression and context failures.
 `Buf.render` models a generated Render over runtime.Buffer (bufio.Writer of fixed capacity) and the buffer pool.
@@ -44,5 +45,35 @@ example :
     let r1 := render false [.write [1, 2, 3], .write [4, 5], .write [6, 7]] { cap := 4 } { limit := some 5 }
     r1.2 = .writer ∧ r1.1.u.accepted = [1, 2, 3, 4, 5] ∧
     (render false [.write [1, 2, 3], .sub [.write [4, 5]], .write [6, 7]] r1.1 {}).1.u.accepted = [1, 2, 3, 4, 5, 6, 7] := by decide
+
+/-! ## Whole templates
+
+The theorems above are about the buffer a generated Render writes through. Over the template semantics of C02
+(`Denote`, which the real generated code is compared with on every C02 run) the fail-stop clause holds for EVERY
+template body and EVERY environment: a render in which an expression or a nested component fails has written a prefix
+of the document the same template writes when nothing fails, and has evaluated a prefix of its expressions; and a
+render that reports no error is that complete document. -/
+theorem C10_template_prefix (body : Ast.Nodes) (env : Sem.Env) :
+    (Denote.run body env).out <+: (Denote.run body (Proofs.Prefix.clearErr env)).out ∧
+    (Denote.run body env).trace <+: (Denote.run body (Proofs.Prefix.clearErr env)).trace :=
+  Proofs.Prefix.run_prefix body env
+
+theorem C10_template_nil_full (body : Ast.Nodes) (env : Sem.Env) (h : (Denote.run body env).err = false) :
+    Denote.run body (Proofs.Prefix.clearErr env) = Denote.run body env :=
+  Proofs.Prefix.run_clear_of_ok body env h
+
+/-- Once a render has failed, the rest of the template writes nothing, evaluates nothing and emits no script. -/
+theorem C10_template_frozen (strict all atStart : Bool) (ns : Ast.Nodes) (next : Bool) (env : Sem.Env) (st : Sem.St) (h : st.err = true) :
+    (Denote.nodes strict all atStart ns next env st).out = st.out ∧
+    (Denote.nodes strict all atStart ns next env st).trace = st.trace ∧
+    (Denote.nodes strict all atStart ns next env st).scripts = st.scripts :=
+  Proofs.Prefix.nodes_err_frozen strict all atStart ns next env st h
+
+/-- Non-vacuity: `<p>{ s }<b>x</b></p>` with a failing `s` stops after `<p>`; without the failure it is the whole document. -/
+example :
+    let body : Ast.Nodes := .cons (.element [112] .nil (.cons (.strExpr [115] .none) (.cons (.element [98] .nil (.cons (.text [120] .none) .nil) .none false false) .nil)) .none false false) .nil
+    let env : Sem.Env := [([115], { keys := [[115]], val := .str [118] true })]
+    (Denote.run body env).out = [60, 112, 62] ∧ (Denote.run body env).err = true ∧
+    (Denote.run body (Proofs.Prefix.clearErr env)).out = [60, 112, 62, 118, 60, 98, 62, 120, 60, 47, 98, 62, 60, 47, 112, 62] := by decide
 
 end TemplVerif.Props.C10
